@@ -1,7 +1,8 @@
 #!/usr/bin/env python3
 """Cross-detection matrix: which property monitors fire on which seeded change.
 
-  matrix.py run [--workers K] [--threads N] [--base B] [NAME ...]   (all seeded changes when none named)
+  matrix.py run [--workers K] [--threads N] [--base B] [--dir DIR] [NAME ...]
+                (--dir selftest/benign: the behaviour-preserving changes, on which nothing may fire)   (all seeded changes when none named)
   matrix.py table
 
 This is self-test tooling, not a registered check. So that it can run while other work uses
@@ -168,6 +169,9 @@ def main():
         while i < len(a):
             if a[i] == "--workers":
                 workers = int(a[i + 1]); i += 2
+            elif a[i] == "--dir":
+                global SEEDED
+                SEEDED = os.path.abspath(a[i + 1]); i += 2
             elif a[i] == "--base":
                 base = int(a[i + 1]); i += 2
             elif a[i] == "--threads":
